@@ -28,6 +28,11 @@ def suite_sk(tier: str, seed: int, mult: int) -> SuiteResult:
         for k in range((120 if tier == "quick" else 1500) * mult):
             F = rng.choice(list(range(2, 25)) + [64, 65])
             rows = gen_rows(rng, F, rng.randint(2, 50))
+            if k % 12 == 5:
+                # wide and dense: rows and centroids share several hundred on-bits
+                F = rng.choice([600, 1024])
+                protos_ = [[1 if rng.random() < 0.7 else 0 for _ in range(F)] for _ in range(2)]
+                rows = [[b ^ (1 if rng.random() < 0.03 else 0) for b in rng.choice(protos_)] for _ in range(rng.randint(6, 14))]
             if k % 5 == 0:
                 # a few all-zero fingerprints (they form a cluster of their own, seldom the largest)
                 for _ in range(rng.randint(1, 3)):
@@ -39,13 +44,15 @@ def suite_sk(tier: str, seed: int, mult: int) -> SuiteResult:
             d.cmd(new_line(cfg))
             # one call, or two calls on the same estimator (fit / partial_fit in any combination): the second call adds rows
             cut = rng.randint(1, len(rows) - 1) if rng.random() < 0.4 else None
-            calls = [rng.choice(["fit", "partial_fit"]), rng.choice(["fit", "partial_fit", "partial_fit"])] if cut else None
+            calls = [rng.choice(["fit", "partial_fit", "fit_predict"]), rng.choice(["fit", "partial_fit", "partial_fit"])] if cut else None
             if cut:
                 d.cmd(f"FIT F={F} labels=- rows={rows_arg(F, rows[:cut])}")
                 d.cmd(f"FIT F={F} labels=- rows={rows_arg(F, rows[cut:])}")
             else:
                 d.cmd(f"FIT F={F} labels=- rows={rows_arg(F, rows)}")
             queries = [r for r in gen_rows(rng, F, rng.randint(1, 6)) if any(r)] or [[1] * F]
+            if F >= 600:
+                queries = [list(r) for r in rows[:3]] + queries[:2]      # queries close to the centroids
             if any(not any(r) for r in rows) or rng.random() < 0.2:
                 # an empty query row: its Jaccard distance to an empty centroid is 0, to any other 1
                 queries.insert(rng.randrange(len(queries) + 1), [0] * F)
